@@ -189,10 +189,13 @@ def run(tier: str) -> int:
     run_.bounds = {"segment_len": 2, "sizes": sorted({c["size"] for c in cfgs}), "max_packet_len": [512, 35, 27],
                    "repetitions_per_pdu": 2, "nak_modes": ["imm", "def"]}
     worlds = [C06World(**kw) for kw in cfgs]
-    kw = dict(check_cycles=False, validate_stride=2999, validate_terminals=10, n_samples=1, max_states=2_000_000)
+    kw = dict(check_cycles=False, validate_stride=2999, validate_terminals=10, n_samples=1, max_states=2_000_000, max_wall=(600 if tier == 'quick' else None))
     small = [w for w in worlds if w.c["size"] <= 3]
     big = [w for w in worlds if w.c["size"] > 3]
     run_.add_all(explore_many(small, procs=NPROC, **kw))
     for w in big:
+        if run_.found_something():
+            run_.skip(w)  # verdict already decided; a defect can make the remaining graphs unboundedly large
+            continue
         run_.add(explore(w, procs=NPROC, **kw))
     return run_.finish(rule="complete reachable graph per configuration: every order / loss / duplication (<=2 copies) of Metadata, segments and EOF interleaved with ticks and timer expiries, until completion")
